@@ -85,6 +85,17 @@ def reap_target_rule(ctx, prog, rule="SUM.reap"):
     return n
 
 
+def parent_inheritable_rule(ctx, prog, rule):
+    """no library descriptor is made inheritable (close-on-exec cleared) on the parent side of the start path: between that moment
+    and the fork another thread's fork+exec would carry it into a foreign process - for the exit pipe's write end that keeps the
+    pipe open after the child has died, and every wait then runs into its timeout"""
+    res = start_run(ctx, prog)[0]
+    bad = sorted({site_of(e[1], e[2]) for e in res.events if e[0] == "cloexec" and e[3][1] == fs(0)
+                  and e[4] is not None and e[4].mon.get("proc") != "child"})
+    ctx.ob(rule, "process_start [parent side]", "close-on-exec is cleared only in the forked child, never on a descriptor of the parent",
+           not bad, {"cleared_in_the_parent_at": bad[:3]}, nontrivial=True)
+
+
 def verify_start_summary(ctx, prog, rule="SUM.start"):
     verify_prepend_summary(ctx, prog)
     reap_target_rule(ctx, prog)
